@@ -94,6 +94,13 @@ var Sinks = []Sink{
 	{Name: "JSONScriptID", Kind: "jsonscript-id", OmittedWhenEmpty: true, Make: plain(func(s string) templ.Component { return JSONScriptID(s) })},
 	{Name: "JSONScriptType", Kind: "jsonscript-type", OmittedWhenEmpty: true, Make: plain(func(s string) templ.Component { return JSONScriptType(s) })},
 	{Name: "JSONScriptNonce", Kind: "jsonscript-nonce", OmittedWhenEmpty: true, Make: plain(func(s string) templ.Component { return JSONScriptNonce(s) })},
+	{Name: "JSONScriptIDWithNonce", Kind: "jsonscript-id", OmittedWhenEmpty: true, Make: plain(func(s string) templ.Component { return JSONScriptIDWithNonce(s) })},
+	{Name: "JSONScriptTypeWithNonce", Kind: "jsonscript-type", OmittedWhenEmpty: true, Make: plain(func(s string) templ.Component { return JSONScriptTypeWithNonce(s) })},
+	{Name: "JSONScriptAll", Kind: "jsonscript-nonce", OmittedWhenEmpty: true, Make: plain(func(s string) templ.Component { return JSONScriptAll(s) })},
+	{Name: "JSONScriptIDCtxNonce", Kind: "jsonscript-id", OmittedWhenEmpty: true, Make: func(ctx context.Context, s string) (context.Context, templ.Component) {
+		return templ.WithNonce(ctx, "ctxn0nce"), JSONScriptID(s)
+	}},
+	{Name: "TwoSinks", Kind: "several-sinks", Make: plain(func(s string) templ.Component { return TwoSinks(s) })},
 	{Name: "JSONScriptCtxNonce", Kind: "jsonscript-nonce", OmittedWhenEmpty: true, Make: func(ctx context.Context, s string) (context.Context, templ.Component) {
 		return templ.WithNonce(ctx, s), JSONScriptCtxNonce()
 	}},
